@@ -37,6 +37,7 @@ func ManageDeployment(client runtimeclient.Client, daemonset *datadoghqv1alpha1.
 	conditions.UpdateExtendedDaemonSetReplicaSetStatusCondition(params.NewStatus, metaNow, datadoghqv1alpha1.ConditionTypeRollingUpdatePaused, conditions.BoolToCondition(result.IsPaused), "", "", false, false)
 	conditions.UpdateExtendedDaemonSetReplicaSetStatusCondition(params.NewStatus, metaNow, datadoghqv1alpha1.ConditionTypeRolloutFrozen, conditions.BoolToCondition(result.IsFrozen), "", "", false, false)
 	conditions.UpdateExtendedDaemonSetReplicaSetStatusCondition(params.NewStatus, metaNow, datadoghqv1alpha1.ConditionTypeActive, conditions.BoolToCondition(!result.IsPaused && !result.IsFrozen), "", "", false, false)
+	result.NewStatus = params.NewStatus.DeepCopy()
 
 	// Remove canary nodes if defined.
 	for _, nodeName := range params.CanaryNodes {
@@ -168,7 +169,6 @@ func ManageDeployment(client runtimeclient.Client, daemonset *datadoghqv1alpha1.
 		result.PodsToCreate = allPodToCreate[:nbPodToCreateWithConstraint]
 	}
 
-	result.NewStatus = params.NewStatus.DeepCopy()
 	result.NewStatus.Status = string(ReplicaSetStatusActive)
 	result.NewStatus.Desired = desiredPods
 	result.NewStatus.Ready = readyPods
